@@ -68,7 +68,7 @@ CONFIGS = {
     'flags-basic': (lambda: FLAGS_G, dict(lexer='basic'), None),
     'flags-ctx': (lambda: FLAGS_G, dict(lexer='contextual'), None),
 }
-LEXEMES = {'tokens': ['let', 'x', '=', '7', ';', '+', '(', ')', '[', ']', ',', ' '],
+LEXEMES = {'tokens': ['let', 'x', '=', '7', ';', '+', '(', ')', '[', ']', ',', 'lety'],
            'many': ['k000', 'k098', 'k099', 'k100', 'k101', 'k129', 'kx', ' ', 'k1290']}
 APIS = ['parse', 'interactive', 'scan']
 
@@ -91,11 +91,12 @@ if P:
     _scratch = tempfile.mkdtemp(prefix='vf_c11_')
     try:
         _cf = os.path.join(_scratch, 'cache.bin')
-        # the same cache path is first used with default options and with one option flipped: the configuration under test must not
+        # the same cache path is first used with one option flipped and with each option left out in turn: the configuration under test must not
         # be served either of those parsers
         _flip = dict(OPTS)
         _flip['maybe_placeholders'] = not OPTS.get('maybe_placeholders', True)
-        for _o in ({k: v for k, v in OPTS.items() if k in ('start', 'use_bytes')}, _flip):
+        _pre = [_flip] + [{k: v for k, v in OPTS.items() if k != drop} for drop in OPTS if drop not in ('start', 'use_bytes')]
+        for _o in _pre:
             Lark(GSRC, parser='lalr', cache=_cf, **_o)
         Lark(GSRC, parser='lalr', cache=_cf, **OPTS)
         assert os.path.exists(_cf)
@@ -186,7 +187,7 @@ def _body(rec, cs, api, si):
     if DOMAIN is None:
         text = hs.class_string(cs, REPS, use_bytes=BYTES)
     else:
-        text = ''.join(LEX[hs.sel(c, K)] for c in cs)
+        text = (' ' if DOMAIN == 'tokens' else '').join(LEX[hs.sel(c, K)] for c in cs)
     with hs.untraced():
         # realised: the text is concrete (re is a C extension) and the four parsers were deserialised when the slice started
         rec['key'] = [text, api, start]
@@ -216,6 +217,8 @@ def plan(tier, seed):
     slices = []
     for cfg, k in Ks.items():
         Lc = (2 if k >= 11 else 3) if quick else (3 if k >= 11 else 4)
+        if cfg.startswith('maybe'):
+            Lc += 1         # the shortest statement with an unmatched [..] has three lexemes
         n = sum(k ** i for i in range(Lc + 1)) * 3 * (2 if cfg == 'multi-start' else 1)
         pins = [None] if n * 0.045 < (100 if quick else 1500) else list(range(k))
         for pin in pins:
